@@ -1711,7 +1711,9 @@ func (s *Server) clearExpiredClients(dt int64) {
 
 		if disconnected+int64(expire) < dt {
 			s.hooks.OnClientExpired(client)
-			s.Clients.Delete(id) // [MQTT-4.1.0-2]
+			client.ClearInflights()
+			s.UnsubscribeClient(client) // the subscriptions of an expired session must not outlive it
+			s.Clients.Delete(id)        // [MQTT-4.1.0-2]
 		}
 	}
 }
